@@ -66,11 +66,29 @@ var families = []family{
 // authFamily is what serverConn.connect passes to decode for CONNECT packets (also used for CONNECT_ERROR).
 var authFamily = family{"connect-auth", []reflect.Type{reflect.TypeOf(&json.RawMessage{})}}
 
+// structMapArg: a struct whose field is a typed map of Binary (the JSON key "a" holds an object).
+type structMapArg struct {
+	A map[string]sio.Binary `json:"a"`
+}
+
+// typedFamilies: statically typed containers of Binary as handler arguments. They are decoded at the
+// decoder level only (the process half registers the five families above).
+var typedFamilies = []family{
+	{"map-of-binary", inTypes(func(map[string]sio.Binary) {})},
+	{"map-of-binary-pointers", inTypes(func(map[string]*sio.Binary) {})},
+	{"struct-with-map-of-binary", inTypes(func(structMapArg) {})},
+	{"pointer-to-struct", inTypes(func(*structArg) {})},
+	{"slice-of-binary", inTypes(func([]sio.Binary) {})},
+	{"slice-of-any", inTypes(func([]any) {})},
+	{"binary-binary", inTypes(func(sio.Binary, sio.Binary) {})},
+}
+
 func familiesFor(typ parser.PacketType) []family {
+	all := append(append([]family{}, families...), typedFamilies...)
 	if typ == parser.PacketTypeConnect || typ == parser.PacketTypeConnectError {
-		return append(append([]family{}, families...), authFamily)
+		return append(all, authFamily)
 	}
-	return families
+	return all
 }
 
 // ---------------------------------------------------------------- frames
